@@ -173,4 +173,38 @@ example : pbMarshal true 34 [49] [7, 8, 9] =
     some (32, true, [49, 0, 0, 0, 0, 0, 0, 0, 0, 0, 0, 0, 0, 0, 0, 0, 32, 0, 0, 0, 0, 0, 0, 0, 3, 0, 0, 0, 0, 0, 0, 0]) := by decide
 example : pbMarshal true 31 [49] [7, 8, 9] = some (0, true, []) := by decide
 
+/-- ANY destination writer, scripted call by call (`a1` answers the header write, `a2` the body write; an
+    answer may be short, may fail, and may even fail after taking the whole buffer -- all legal for io.Writer):
+    the count Marshal returns is exactly the number of bytes the writer took, those bytes are exactly the first
+    k bytes of the frame, the writer's failure is reported, and the body is not written after a failed header
+    write. -/
+theorem C07_writer_any (ver body frame : List Nat) (a1 a2 : WAns) (hf : pbFrame ver body = some frame) :
+    pbMarshalScript a1 a2 ver body =
+      if (a1.fail || decide (min a1.accept 32 < 32)) = true
+      then some (min a1.accept 32, true, frame.take (min a1.accept 32))
+      else some (32 + min a2.accept body.length, a2.fail || decide (min a2.accept body.length < body.length),
+                 frame.take (32 + min a2.accept body.length)) := by
+  obtain ⟨hv, rfl⟩ := pbFrame_some hf
+  have hh := pbHeader_eq ver body.length hv
+  have hl := pbHeader_length hh
+  generalize pad16 ver ++ le64 32 ++ le64 body.length = hdr at hh hl
+  simp only [pbMarshalScript, hh, hl]
+  split
+  · rw [List.take_append_of_le_length (by omega)]
+  · have t : (hdr ++ body).take (32 + min a2.accept body.length) = hdr ++ body.take (min a2.accept body.length) := by
+      rw [List.take_append, hl, List.take_of_length_le (by omega)]
+      congr 2; omega
+    rename_i hnf
+    have h32 : min a1.accept 32 = 32 := by
+      simp only [Bool.or_eq_true, decide_eq_true_eq, not_or, Nat.not_lt] at hnf
+      omega
+    rw [t, h32]
+
+/-- the case the io.Writer contract allows and a capacity-style test writer never produces: the header write
+    is taken in full AND reports an error -- Marshal stops there with count 32 -/
+example : pbMarshalScript ⟨32, true⟩ ⟨3, false⟩ [49] [7, 8, 9] =
+    (pbFrame [49] [7, 8, 9]).map fun f => (32, true, f.take 32) := by decide
+example : pbMarshalScript ⟨32, false⟩ ⟨3, true⟩ [49] [7, 8, 9] =
+    (pbFrame [49] [7, 8, 9]).map fun f => (35, true, f) := by decide
+
 end Low
